@@ -384,6 +384,59 @@ def rule_i(prog, rep):
                   witness={"inputs": "a 2-D index whose values exceed its column numbers: the dtype is chosen from the column numbers and the values overflow"})
     if not comps:
         rep.undecided("R-C01-i", fi2.fq, "to_array: values that size the dtype", "no list of entry values reaches fit_dtype")
+    # the fill value of the output (self.common) is ALWAYS among the values that size the default dtype: the array is
+    # pre-filled with it even when no cell holds it (a caller-chosen common value that is absent from the data)
+    I3 = Interp(prog, hints.param_types_for("iindexes"), hints.FIELD_TYPES, max_depth=2)
+    I3.run(fi2)
+    common_t = T("attr", tm.param("self"), "common")
+    ORDER = {"never": 0, "cond": 1, "always": 2}
+
+    def includes_common(X, base_guards):
+        if X.op == "alloc" and X in I3.heap:
+            els = I3.heap[X].get("elts", []) or I3.heap[X].get("literal", [])
+            if any(el == common_t for el in els):
+                return "always"
+        if X.op in ("comp", "alloc"):
+            best = "never"
+            for e in I3.events:
+                if e.kind == "call" and e["method"] in ("add", "append", "insert") and e["recv"] == X and any(a == common_t for a in e["args"]):
+                    extra = [g for g in e.guards if g not in base_guards]
+                    v = "always" if not extra else "cond"
+                    best = v if ORDER[v] > ORDER[best] else best
+            return best
+        if X.op == "call" and tm.callee_name(X) in ("builtins.list", "builtins.set", "builtins.sorted", "builtins.tuple", "builtins.frozenset") and X.args[1]:
+            return includes_common(X.args[1][0], base_guards)
+        if X.op == "binop" and X.args[0] in ("+", "|"):
+            vs = [includes_common(a, base_guards) for a in X.args[1:]]
+            known = [v for v in vs if v is not None]
+            if "always" in known:
+                return "always"
+            return None if None in vs else max(known, key=ORDER.get)
+        if X.op == "bool":
+            vs = [includes_common(a, base_guards) for a in X.args[1:]]
+            return None if None in vs else min(vs, key=ORDER.get)
+        if X.op in ("list", "tuple", "set"):
+            return "always" if any(a == common_t for a in X.args) else "never"
+        return None
+
+    seen_x = set()
+    for e in I3.events:
+        if e.kind == "call" and e["name"] == "iindexes:fit_dtype" and not e.stack:
+            for a in e["args"]:
+                if a.op == "call" and tm.callee_name(a) in ("builtins.max", "builtins.min") and a.args[1] and tm.contains(a, lambda y: y.op == "iter" and y.args[0] == tm.param("self")):
+                    X = a.args[1][0]
+                    if X in seen_x:
+                        continue
+                    seen_x.add(X)
+                    v = includes_common(X, e.guards)
+                    cons = "to_array: the common value (the fill value of the output) always takes part in sizing the default dtype"
+                    if v is None:
+                        rep.undecided("R-C01-i", "%s@%d" % (fi2.fq, e.line), cons, "cannot tell whether %s contains self.common" % tm.show(X)[:60])
+                    else:
+                        rep.check(v == "always", "R-C01-i", "%s@%d" % (fi2.fq, e.line), cons, "self.common is an unconditional element",
+                                  "self.common is %s: the output is pre-filled with it all the same, so numpy.full raises OverflowError (or wraps) when it lies outside the dtype of the listed values"
+                                  % ("only included when some cell holds it" if v == "cond" else "not among the values"),
+                                  witness={"inputs": "iindex.from_array([0, 1, 2, 1], common=-1).to_array() -> OverflowError instead of the array"})
 
 
 def main(tier):
